@@ -84,7 +84,11 @@ class OptTimes:
                     else:
                         v = c.ceval(z3.Select(z3.Const(name + '.val', AKR), kt),
                                     lambda r: 1577836800 + r.randint(0, 40) * 21600 + r.choice([0, 52200, 75600, 75660]))
-                        self.m[k] = pd.Timestamp(float(v), unit='s', tz='UTC')
+                        ts = pd.Timestamp(float(v), unit='s', tz='UTC')
+                        if getattr(c, 'rng', None) is not None and getattr(c, 'model', None) is None:
+                            # the same instant written in another zone is the same entry date (the statement compares instants)
+                            ts = ts.tz_convert(c.rng.choice(['UTC', 'UTC', 'America/New_York', 'Asia/Tokyo']))
+                        self.m[k] = ts
 
     def present(self, k):
         if self.c.mode == 'sym':
